@@ -80,25 +80,57 @@ structure PartsAdded (G G' : Ghost) (new : List (Nat × List Nat)) : Prop where
 theorem partsAdded_refl (G : Ghost) : PartsAdded G G [] :=
   ⟨rfl, rfl, fun _ h => h, fun _ h => Or.inl h, by intro x hx; simp at hx⟩
 
-theorem flushMany_along :
-    ∀ (mems : List PartG) (G : Ghost) (s : St), Inv G s → (mems.map (·.id)).Nodup →
-      (∀ p ∈ mems, p.id ∉ G.parts.map (·.id)) →
-      Along (fun s => ∃ G', Inv G' s) s (mems.flatMap (fun p => flushPart p.id p.batches)) ∧
-      ∃ G', Inv G' (run s (mems.flatMap (fun p => flushPart p.id p.batches))) ∧
-        PartsAdded G G' (mems.map (fun p => (p.id, p.batches))) := by
+theorem partsAdded_snoc {G G1 : Ghost} {d : List (Nat × List Nat)} (hPA : PartsAdded G G1 d) (ps : PartS)
+    (hfresh : ps.id ∉ G1.parts.map (·.id)) (hdy : ps.dying = false) :
+    PartsAdded G (G1.withPart ps) (d ++ [(ps.id, ps.bat)]) := by
+  have hmw := @mem_withPart G1 ps hfresh
+  refine ⟨by rw [withPart_mans, hPA.mans], by rw [withPart_floor, hPA.floor], ?_, ?_, ?_⟩
+  · intro q hq; exact hmw.2 (Or.inl (hPA.old q hq))
+  · intro q' hq'
+    rcases hmw.1 hq' with hq' | rfl
+    · rcases hPA.cases q' hq' with hq' | ⟨x, hx, hh⟩
+      · left; exact hq'
+      · right; exact ⟨x, List.mem_append_left _ hx, hh⟩
+    · right; exact ⟨(ps.id, ps.bat), by simp, rfl, rfl, rfl, rfl, hdy⟩
+  · intro x hx
+    rcases List.mem_append.1 hx with hx | hx
+    · obtain ⟨p', hp', hh⟩ := hPA.added x hx
+      exact ⟨p', hmw.2 (Or.inl hp'), hh⟩
+    · simp at hx; subst hx
+      exact ⟨_, hmw.2 (Or.inr rfl), rfl, rfl, rfl, rfl, hdy⟩
+
+/-- flushing the memory parts `mems0` one after the other.  `Qd done G` is the caller's description of the ghost
+    after the parts `done` were flushed, `Qm` what holds for every intermediate ghost. -/
+theorem flushMany_along (Qm : Ghost → Prop) (Qd : List PartG → Ghost → Prop) (mems0 : List PartG)
+    (hQm : ∀ d G1, Qd d G1 → Qm G1)
+    (hstep : ∀ d p rest G1, mems0 = d ++ p :: rest → Qd d G1 → (G1.parts.map (·.id)).Nodup →
+      p.id ∉ G1.parts.map (·.id) → ∀ ps : PartS, ps.id = p.id → ps.bat = p.batches → ps.ready = false → ps.durable = false → ps.dying = false →
+        Qm { G1 with parts := G1.parts ++ [ps] } ∧ Qm (({ G1 with parts := G1.parts ++ [ps] } : Ghost).ready ps.id) ∧
+          Qd (d ++ [p]) (G1.withPart ps)) :
+    ∀ (mems done : List PartG) (G : Ghost) (s : St), mems0 = done ++ mems → Inv G s → Qd done G →
+      (mems.map (·.id)).Nodup → (∀ p ∈ mems, p.id ∉ G.parts.map (·.id)) →
+      Along (InvQ Qm) s (mems.flatMap (fun p => flushPart p.id p.batches)) ∧
+      ∃ G', Inv G' (run s (mems.flatMap (fun p => flushPart p.id p.batches))) ∧ Qd mems0 G' := by
   intro mems
   induction mems with
   | nil =>
-    intro G s h _ _
-    exact ⟨along_nil ⟨G, h⟩, G, h, partsAdded_refl G⟩
+    intro done G s h0 h hQ _ _
+    have : mems0 = done := by rw [h0]; simp
+    exact ⟨along_nil ⟨G, h, hQm _ _ hQ⟩, G, h, by rw [this]; exact hQ⟩
   | cons p mems ih =>
-    intro G s h hnd hfresh
+    intro done G s h0 h hQ hnd hfresh
     rw [List.map_cons, List.nodup_cons] at hnd
     have hf0 := hfresh p List.mem_cons_self
-    obtain ⟨hA, hE⟩ := flushPart_along h p.id p.batches hf0
+    obtain ⟨hA, hE⟩ := flushPart_along h p.id p.batches hf0 Qm
+      (by
+        intro ps h1 h2 h3 h4 h5
+        obtain ⟨a, b, c⟩ := hstep done p mems G h0 hQ h.gwf.partIds hf0 ps h1 h2 h3 h4 h5
+        exact ⟨a, b, hQm _ _ c⟩)
     obtain ⟨ps, hps⟩ : ∃ ps : PartS, ps = ⟨p.id, p.batches, flushIno s.next, false, false, false⟩ := ⟨_, rfl⟩
     rw [← hps] at hE
     have hpsid : ps.id = p.id := by rw [hps]
+    have hQ1 : Qd (done ++ [p]) (G.withPart ps) :=
+      (hstep done p mems G h0 hQ h.gwf.partIds hf0 ps hpsid (by rw [hps]) (by rw [hps]) (by rw [hps]) (by rw [hps])).2.2
     have hfresh1 : ∀ q ∈ mems, q.id ∉ (G.withPart ps).parts.map (·.id) := by
       intro q hq hmem
       obtain ⟨p', hp', hid'⟩ := List.mem_map.1 hmem
@@ -107,23 +139,9 @@ theorem flushMany_along :
       · apply hnd.1
         have : p.id = q.id := by rw [← hid', ← hpsid]
         rw [this]; exact List.mem_map.2 ⟨q, hq, rfl⟩
-    obtain ⟨hA', G', hE', hPA⟩ := ih (G.withPart ps) _ hE hnd.2 hfresh1
+    obtain ⟨hA', G', hE', hQ'⟩ := ih (done ++ [p]) (G.withPart ps) _ (by rw [h0]; simp) hE hQ1 hnd.2 hfresh1
     rw [List.flatMap_cons]
-    refine ⟨along_append hA hA', G', by rw [run_append]; exact hE', ?_⟩
-    have hmw := @mem_withPart G ps (by rw [hpsid]; exact hf0)
-    refine ⟨by rw [hPA.mans, withPart_mans], by rw [hPA.floor, withPart_floor], ?_, ?_, ?_⟩
-    · intro q hq; exact hPA.old q (hmw.2 (Or.inl hq))
-    · intro q' hq'
-      rcases hPA.cases q' hq' with hq' | ⟨x, hx, hh⟩
-      · rcases hmw.1 hq' with hq' | rfl
-        · left; exact hq'
-        · right; exact ⟨(p.id, p.batches), by simp, by rw [hps]; simp⟩
-      · right; exact ⟨x, List.mem_cons_of_mem _ hx, hh⟩
-    · intro x hx
-      rw [List.map_cons] at hx
-      rcases List.mem_cons.1 hx with rfl | hx
-      · exact ⟨_, hPA.old _ (hmw.2 (Or.inr rfl)), by rw [hps]; simp⟩
-      · exact hPA.added x hx
+    exact ⟨along_append hA hA', G', by rw [run_append]; exact hE', hQ'⟩
 
 /-! ### removing several parts -/
 
@@ -135,22 +153,24 @@ structure PartsDying (G G' : Ghost) (dead : List Nat) : Prop where
     ((p' = p ∧ p.id ∉ dead) ∨ (p'.dying = true ∧ p.id ∈ dead))
   keep : ∀ p ∈ G.parts, ∃ p' ∈ G'.parts, p'.id = p.id ∧ (p.id ∉ dead → p' = p)
 
-theorem reapMany_along :
+theorem reapMany_along (Q : Ghost → Prop)
+    (hstep : ∀ G1 id, Q G1 → (∀ ms ∈ G1.mans, G1.aboveFloor ms.epoch → id ∉ ms.ids) → Q (G1.dyingPart id)) :
     ∀ (dead : List Nat) (G : Ghost) (s : St), Inv G s →
       (∀ id ∈ dead, ∃ ps ∈ G.parts, ps.id = id) →
-      (∀ id ∈ dead, ∀ ms ∈ G.mans, G.aboveFloor ms.epoch → id ∉ ms.ids) →
-      Along (fun s => ∃ G', Inv G' s) s (dead.flatMap rmPart) ∧
-      ∃ G', Inv G' (run s (dead.flatMap rmPart)) ∧ PartsDying G G' dead := by
+      (∀ id ∈ dead, ∀ ms ∈ G.mans, G.aboveFloor ms.epoch → id ∉ ms.ids) → Q G →
+      Along (InvQ Q) s (dead.flatMap rmPart) ∧
+      ∃ G', Inv G' (run s (dead.flatMap rmPart)) ∧ PartsDying G G' dead ∧ Q G' := by
   intro dead
   induction dead with
   | nil =>
-    intro G s h _ _
-    refine ⟨along_nil ⟨G, h⟩, G, h, rfl, rfl, ?_, ?_⟩
+    intro G s h _ _ hQ
+    refine ⟨along_nil ⟨G, h, hQ⟩, G, h, ⟨rfl, rfl, ?_, ?_⟩, hQ⟩
     · intro p' hp'; exact ⟨p', hp', rfl, rfl, Or.inl ⟨rfl, by simp⟩⟩
     · intro p hp; exact ⟨p, hp, rfl, fun _ => rfl⟩
   | cons id dead ih =>
-    intro G s h hknown hfree
-    obtain ⟨hA, hE⟩ := rmPart_along h id (hknown id List.mem_cons_self) (hfree id List.mem_cons_self)
+    intro G s h hknown hfree hQ
+    have hQ1 : Q (G.dyingPart id) := hstep G id hQ (hfree id List.mem_cons_self)
+    obtain ⟨hA, hE⟩ := rmPart_along h id (hknown id List.mem_cons_self) (hfree id List.mem_cons_self) Q hQ1
     have hknown1 : ∀ id' ∈ dead, ∃ ps ∈ (G.dyingPart id).parts, ps.id = id' := by
       intro id' hid'
       obtain ⟨ps, hps, hpid⟩ := hknown id' (List.mem_cons_of_mem _ hid')
@@ -161,9 +181,9 @@ theorem reapMany_along :
     have hfree1 : ∀ id' ∈ dead, ∀ ms ∈ (G.dyingPart id).mans, (G.dyingPart id).aboveFloor ms.epoch → id' ∉ ms.ids := by
       intro id' hid' ms hms hab
       exact hfree id' (List.mem_cons_of_mem _ hid') ms hms ((aboveFloor_congr (dyingPart_floor G id) _).1 hab)
-    obtain ⟨hA', G', hE', hPD⟩ := ih (G.dyingPart id) _ hE hknown1 hfree1
+    obtain ⟨hA', G', hE', hPD, hQ'⟩ := ih (G.dyingPart id) _ hE hknown1 hfree1 hQ1
     rw [List.flatMap_cons]
-    refine ⟨along_append hA hA', G', by rw [run_append]; exact hE', ?_⟩
+    refine ⟨along_append hA hA', G', by rw [run_append]; exact hE', ?_, hQ'⟩
     refine ⟨by rw [hPD.mans, dyingPart_mans], by rw [hPD.floor, dyingPart_floor], ?_, ?_⟩
     · intro p' hp'
       obtain ⟨p1, hp1, hid1, hbat1, hc⟩ := hPD.cases p' hp'
